@@ -194,6 +194,21 @@ def r_tree(rnd: random.Random, depth: int) -> t.Dict[str, t.Any]:
     return {"k": "and" if k == 8 else "or", "fs": [r_tree(rnd, depth - 1) for _ in range(rnd.randrange(1, 4))]}
 
 
+def wide_trees() -> t.List[t.Dict[str, t.Any]]:
+    """and / or with MANY children (the random trees stop at three): 100, 256, 257, 300, 1000 siblings, also with the
+    nested item last at every level of a 30 x 12 tree."""
+    leaf = lambda j: {"k": "eq", "attr": list(b"cn"), "v": list(f"v{j}".encode())}  # noqa: E731
+    out: t.List[t.Dict[str, t.Any]] = []
+    for n in (100, 256, 257, 300, 1000):
+        out.append({"k": "or", "fs": [leaf(j) for j in range(n)]})
+        out.append({"k": "and", "fs": [{"k": "not", "f": leaf(0)}] + [{"k": "present", "attr": list(b"objectClass")} for _ in range(n - 1)]})
+    tr: t.Dict[str, t.Any] = leaf(0)
+    for lvl in range(30):
+        tr = {"k": "and" if lvl % 2 else "or", "fs": [leaf(j) for j in range(11)] + [tr]}
+    out.append(tr)
+    return out
+
+
 def validate(rep: C.Report, wd: str, events: t.List[t.Any], prop_filter: t.Callable[[str, str], t.Optional[str]], label: str) -> None:
     verdicts, gen, dist = C.validate_traces("FilterTrace", "FilterTrace.cfg", events, wd, tag="ftrace", timeout=2400, xss="256m", min_per_shard=500)
     rep.states += dist
@@ -239,6 +254,14 @@ def run_c13(tier: str, seed: int) -> int:
             for _ in range(n):
                 tr = {"k": "not", "f": tr}
             events.append(str_event(tr))
+        for wt in wide_trees():
+            we = str_event(wt)
+            rep.case(str(wt)[:600])
+            if len(we["text"]) <= 5000:
+                events.append(we)
+            elif we["backres"] != "ok" or we["back"] != wt:
+                rep.violation("RoundTrip/wide", f"a filter with {len(wt.get('fs', []))} children at the top ({len(we['text'])} characters of text) does not survive "
+                              f"str() / from_string(): {we['backres']}", {"children": len(wt.get("fs", [])), "text_head": bytes(we["text"][:200]).decode("utf-8", "replace")})
         for e in events:
             rep.case(str(e["tree"])[:600])
         validate(rep, wd, events, sigmap, "str(filter) must be an RFC 4515 sentence denoting the filter; from_string(str(f)) = f")
@@ -276,6 +299,16 @@ def run_c14(tier: str, seed: int) -> int:
                 ce = codec.codec_event(msg)
                 ce["m"]["filter"] = c["tree"]
                 codec_events.append(ce)
+        for wt in wide_trees():
+            wtext = bytes(str_event(wt)["text"]).decode("utf-8", "replace")
+            rep.case(wtext[:300])
+            try:
+                got = proj.filter_to_abstract(sansldap.LDAPFilter.from_string(wtext))
+                if got != wt:
+                    rep.violation("TreeAsGrammarDenotes/wide", f"a sentence with {len(wt.get('fs', []))} items at the top parses to a different tree", {"text_head": wtext[:200]})
+            except Exception as ex:  # noqa: BLE001
+                rep.violation("Accepts/wide", f"a valid sentence with {len(wt.get('fs', []))} items at the top ({len(wtext)} characters) is rejected: {type(ex).__name__}: {ex}",
+                              {"text_head": wtext[:200]})
         validate(rep, wd, events, sigmap, "from_string(sentence) must give the tree the grammar denotes")
         verdicts, gen, dist = C.validate_traces("CodecTrace", "CodecTrace.cfg", codec_events, wd, tag="c14codec", timeout=2400)
         rep.states += dist
@@ -312,6 +345,38 @@ def edits(text: str, rnd: random.Random, limit: int) -> t.List[str]:
     if len(out) > limit:
         out = rnd.sample(out, limit)
     return out
+
+
+def low_stack_parse(text: str, frames_left: int) -> str:
+    """Call from_string from a Python stack that has only about `frames_left` frames to spare."""
+    import sys
+
+    import sansldap
+    from sansldap._filter import FilterSyntaxError
+
+    limit = sys.getrecursionlimit()
+
+    def depth_now() -> int:
+        f, n = sys._getframe(), 0
+        while f is not None:
+            f, n = f.f_back, n + 1
+        return n
+
+    def down(n: int) -> str:
+        if n > 0:
+            return down(n - 1)
+        try:
+            sansldap.LDAPFilter.from_string(text)
+            return "ok"
+        except FilterSyntaxError:
+            return "FilterSyntaxError"
+        except BaseException as ex:  # noqa: BLE001
+            return type(ex).__name__
+
+    try:
+        return down(max(0, limit - depth_now() - frames_left - 4))
+    except RecursionError:
+        return "harness-RecursionError"
 
 
 def run_c15(tier: str, seed: int) -> int:
@@ -361,6 +426,10 @@ def run_c15(tier: str, seed: int) -> int:
             for tmpl in ("(a=x\\5c{h}y)", "(a=*x\\5c{h}y*)", "(a=x\\5c{h}*)", "(a=*\\5c{h})", "(a=p*q\\5c{h}r*s)", "(a>=\\5c{h})", "(a<=\\5c\\5c{h})", "(a~=\\5c{h})",
                          "(a:=\\5c{h})", "(a:dn:1.2:=x\\5c{h})", "(&(a=*\\5c{h}*)(b=c))", "(!(a=\\5c{h}*))", "(a=\\5c\\{h})"):
                 texts.append(tmpl.format(h=hh))
+        # a backslash followed by two characters that a lenient converter (int(), bytes.fromhex, unicode digits) would take
+        for pair in ("  ", " \t", "\t ", "\r\n", "\x0b\x0c", "+1", "-1", "0x", "1_", " 1", "1 ", "\uff11\uff11", "\u0661\u0662", "a\u00df", "Ａ1", "4\u00b2"):
+            for tmpl in ("(cn=\\{p}*smith)", "(cn=john*\\{p}*smith)", "(cn=x\\{p})", "(cn=\\{p})", "(cn:=\\{p}y)", "(cn>=a\\{p})", "(&(cn=*\\{p})(a=b))"):
+                texts.append(tmpl.format(p=pair))
         # arbitrary text
         alphabet = "()&|!=*\\:; a1.\n\t\x00é\U0001f600𐂀\udfff~<>"
         for _ in range(2000 if tier == "quick" else 40000):
@@ -375,6 +444,17 @@ def run_c15(tier: str, seed: int) -> int:
             rep.case(tx[:300])
             uniq.append(tx)
         events = C.guarded_events(rep, parse_event, uniq, "LDAPFilter.from_string()", also_prop="C15")
+        # the caller's own stack may be deep already (a recursive application, a framework): with N frames left the parser
+        # must still answer with a filter or a FilterSyntaxError
+        for depth_, left in ((70, 60), (140, 150), (190, 300), (30, 40), (400, 500)):
+            for shape in ("(&(|(!", "(!"):
+                unit = shape.count("(")
+                reps_ = max(1, depth_ // unit)
+                tx = shape * reps_ + "(a=b)" + ")" * (unit * reps_)
+                rep.case(("low-stack", depth_, left, shape))
+                res = low_stack_parse(tx, left)
+                if res not in ("ok", "FilterSyntaxError", "harness-RecursionError"):
+                    rep.violation(f"Total/low-stack/{res}", f"from_string of a {depth_}-level filter with about {left} interpreter frames left raised {res}", {"text_head": tx[:120], "frames_left": left})
         validate(rep, wd, events, sigmap, "from_string(any text): total, error span inside the input, accepted names valid, result re-parses to itself")
         for e in events[:3]:
             rep.sample({"text": bytes(e["text"]).decode("utf-8", "replace"), "res": e["res"], "off": e["off"], "len": e["len"]})
